@@ -908,10 +908,7 @@ func (c *client) maybeOverrideUnsupportedWriteConsistency(isSelect bool, raw *fr
 					zap.Stringer("unsupported", m.Consistency),
 					zap.Stringer("override", overrideConsistency))
 				m.Consistency = overrideConsistency
-				return &frame.Frame{
-					Header: raw.Header,
-					Body:   body,
-				}
+				return c.reencodeOverridden(raw, body)
 			} else {
 				c.proxy.logger.Debug("no override required for execute write consistency",
 					zap.Stringer("request", m),
@@ -924,10 +921,7 @@ func (c *client) maybeOverrideUnsupportedWriteConsistency(isSelect bool, raw *fr
 					zap.Stringer("unsupported", m.Consistency),
 					zap.Stringer("override", overrideConsistency))
 				m.Consistency = overrideConsistency
-				return &frame.Frame{
-					Header: raw.Header,
-					Body:   body,
-				}
+				return c.reencodeOverridden(raw, body)
 			} else {
 				c.proxy.logger.Debug("no override required for query write consistency",
 					zap.Stringer("request", m),
@@ -940,10 +934,7 @@ func (c *client) maybeOverrideUnsupportedWriteConsistency(isSelect bool, raw *fr
 					zap.Stringer("unsupported", m.Consistency),
 					zap.Stringer("override", overrideConsistency))
 				m.Consistency = overrideConsistency
-				return &frame.Frame{
-					Header: raw.Header,
-					Body:   body,
-				}
+				return c.reencodeOverridden(raw, body)
 			} else {
 				c.proxy.logger.Debug("no override required for batch write consistency",
 					zap.Stringer("request", m),
@@ -953,6 +944,21 @@ func (c *client) maybeOverrideUnsupportedWriteConsistency(isSelect bool, raw *fr
 	}
 
 	return raw
+}
+
+// reencodeOverridden encodes a request whose consistency has been overridden. The frame is encoded to a raw frame
+// here, uncompressed: encoding it later using `EncodeFrame()` announces a body length that includes a tracing ID when
+// the tracing flag is set (which request bodies don't have), and re-compressing the modified body is unnecessary.
+func (c *client) reencodeOverridden(raw *frame.RawFrame, body *frame.Body) interface{} {
+	hdr := *raw.Header
+	hdr.Flags = hdr.Flags.Remove(primitive.HeaderFlagCompressed)
+	frm := &frame.Frame{Header: &hdr, Body: body}
+	if rawFrm, err := c.codec.ConvertToRawFrame(frm); err == nil {
+		return rawFrm
+	} else {
+		c.proxy.logger.Error("unable to encode request with overridden consistency", zap.Error(err))
+		return frm
+	}
 }
 
 func (c *client) isUnsupportedWriteConsistency(consistency primitive.ConsistencyLevel) bool {
